@@ -257,11 +257,13 @@ func ZZ_C02_assign_1eni_2pods() {
 	zzC02Body(1, 2, 1, 2, 1, zz.Tier() == 0)
 }
 
-// zz:repeat 64
+// zz:repeat 512
 func ZZ_C02_assign_2eni_2pods() {
 	if zz.Tier() == 0 {
 		zz.Reach("done")
 		return
 	}
-	zzC02(2, 1, 1, 2, 2)
+	// single-stack nodes only: dual stack with two interfaces and two competing pods exceeds 200k paths
+	// per shard (dual stack is covered with one pod on two interfaces and with two pods on one interface)
+	zzC02Body(2, 1, 1, 2, 2, true)
 }
